@@ -158,6 +158,28 @@ def lean_sources() -> list[Path]:
                   if "Audit" not in p.parts)
 
 
+def module_path(module: str) -> Path:
+    return LEAN / (module.replace(".", "/") + ".lean")
+
+
+def import_closure(roots: Iterable[str]) -> list[Path]:
+    """Project files (OPM.*, Driver.*) transitively imported by the given modules / files."""
+    seen: dict[str, Path] = {}
+    todo = list(roots)
+    while todo:
+        m = todo.pop()
+        if m in seen:
+            continue
+        f = module_path(m)
+        if not f.exists():
+            continue
+        seen[m] = f
+        for imp in re.findall(r"^\s*import\s+(\S+)", strip_comments(f.read_text()), re.M):
+            if imp.startswith("OPM.") or imp.startswith("Driver."):
+                todo.append(imp)
+    return sorted(seen.values())
+
+
 def forbidden_hits(files: Iterable[Path]) -> list[str]:
     hits = []
     for f in files:
@@ -329,6 +351,8 @@ class Check:
         self.extra: dict[str, Any] = {}
         self.known = load_known(prop_id)
         self.replay_case: Any = None
+        self._drivers: list[str] = []
+        self._proof_roots: list[str] = []
 
     # -- quantities scaled by tier
     def n(self, quick: int, thorough: int) -> int:
@@ -358,7 +382,10 @@ class Check:
             errs = [ln for ln in log.splitlines() if "error" in ln.lower()][:8]
             self.proof_broken.append("lake build failed: " + " | ".join(errs or [log[-400:]]))
             return False
-        hits = forbidden_hits(lean_sources())
+        # only what this property's theorems and drivers are built from (other properties' files may be
+        # under construction)
+        self._proof_roots = [module, *extra_targets]
+        hits = forbidden_hits(import_closure(self._proof_roots + [f"Driver.{d}" for d in self._drivers]))
         if hits:
             self.proof_broken.append("forbidden tokens: " + "; ".join(hits[:6]))
         a = audit(self.id, module, thms)
@@ -388,6 +415,11 @@ class Check:
                    impl_timeout: float = 20.0) -> tuple[list[list[str]], list[list[str]]]:
         """Run impl and model on the same op lines, record disagreements.
         Returns (impl outputs, model outputs)."""
+        if model not in self._drivers:
+            self._drivers.append(model)
+            hits = forbidden_hits(import_closure([f"Driver.{model}"]))
+            if hits:
+                self.proof_broken.append("forbidden tokens: " + "; ".join(hits[:6]))
         all_lines = [lines(c) for c in cases]
         impl_out: list[list[str]] = []
         for c in cases:
